@@ -688,7 +688,7 @@ func viewOf(fn *ssa.Function) *fnView {
 			for _, b := range sc.Blocks {
 				if r, ok := b.Instrs[len(b.Instrs)-1].(*ssa.Return); ok {
 					// returns that only report an error hand nothing on
-					if n := len(r.Results); n >= 2 && isErrorType(r.Results[n-1].Type()) && returnKinds(r.Results[n-1]) == 2 {
+					if n := len(r.Results); n >= 2 && isErrorType(r.Results[n-1].Type()) && (returnKinds(r.Results[n-1]) == 2 || zeroResultsWithError(r)) {
 						continue
 					}
 					rets = append(rets, r)
@@ -744,4 +744,36 @@ func attributedTo(p *Prog, fn *ssa.Function) []*ssa.Function {
 	}
 	walk(fn, 0)
 	return out
+}
+
+// zeroResultsWithError: a return whose error result is not the constant nil and whose other results are all
+// zero-value constants: it hands nothing on but the error.
+func zeroResultsWithError(r *ssa.Return) bool {
+	n := len(r.Results)
+	if k, ok := r.Results[n-1].(*ssa.Const); ok && k.Value == nil {
+		return false
+	}
+	for _, v := range r.Results[:n-1] {
+		k, ok := v.(*ssa.Const)
+		if !ok {
+			return false
+		}
+		if k.Value != nil {
+			switch k.Value.Kind() {
+			case constant.String:
+				if constant.StringVal(k.Value) != "" {
+					return false
+				}
+			case constant.Bool:
+				if constant.BoolVal(k.Value) {
+					return false
+				}
+			default:
+				if constant.Sign(k.Value) != 0 {
+					return false
+				}
+			}
+		}
+	}
+	return true
 }
